@@ -413,6 +413,90 @@ pub fn reentered_after_abrupt_finally_exit() -> Vec<Case> {
     out
 }
 
+/// One function active twice on one fiber, the outer activation inside its finally block with an outcome
+/// waiting (an exception, a return value, a break, a continue, or nothing) when it calls itself - directly,
+/// through another function, or as a method - and the inner activation passing through the same try
+/// statement with nothing waiting, with an exception of its own that it handles, with one it lets go, or
+/// with a return value.  Each activation's waiting outcome is its own: the inner one completes none of the
+/// outer one's, the outer finally block runs to its end, and the outer outcome continues afterwards.
+pub fn recursion_from_finally() -> Vec<Case> {
+    let lab = |t: &str| print_stmt(Expr::Interp(vec![Part::Lit(format!("{} d=", t)), Part::Expr(var("d"))]));
+    let mut out = Vec::new();
+    for outer in 0..5 {
+        for inner in 0..4 {
+            for via in 0..3 {
+                for guarded in [false, true] {
+                    let is_outer = || bin(BinOp::Eq, var("d"), num(0.0));
+                    // what the outer activation (d == 0) does in its try body
+                    let outer_leaf: Vec<Stmt> = match outer {
+                        0 => vec![expr_stmt(index(Expr::VecLit(vec![]), num(3.0)))],
+                        1 => vec![st(StmtKind::Return(Some(s("outer return value"))))],
+                        2 => vec![st(StmtKind::Break)],
+                        3 => vec![st(StmtKind::Continue)],
+                        _ => vec![lab("outer falls through")],
+                    };
+                    // what the inner activation (d == 1) does in its try body
+                    let inner_leaf: Vec<Stmt> = match inner {
+                        0 => vec![lab("inner body")],
+                        1 => vec![st(StmtKind::Try(vec![st(StmtKind::Throw(s("inner, handled")))], Some(("e".into(), vec![lab("inner caught its own")])), None))],
+                        2 => vec![st(StmtKind::Throw(s("inner lets this go")))],
+                        _ => vec![st(StmtKind::Return(Some(s("inner return value"))))],
+                    };
+                    let again: Expr = match via {
+                        0 => call(var("rec"), vec![num(1.0)]),
+                        1 => call(var("relay"), vec![num(1.0)]),
+                        _ => invoke(var("obj"), "rec", vec![num(1.0)]),
+                    };
+                    let recurse: Stmt = if guarded {
+                        st(StmtKind::Try(vec![print_stmt(again)], Some(("e".into(), vec![print_stmt(Expr::Interp(vec![Part::Lit("the nested call raised ".into()), Part::Expr(var("e"))]))])), None))
+                    } else {
+                        print_stmt(again)
+                    };
+                    let try_stmt = st(StmtKind::Try(
+                        vec![st(StmtKind::If(is_outer(), outer_leaf, Some(Box::new(block(inner_leaf)))))],
+                        None,
+                        Some(vec![lab("finally starts"), st(StmtKind::If(is_outer(), vec![recurse], None)), lab("finally ends")]),
+                    ));
+                    // the try statement sits in a loop that runs once or twice (break / continue need one)
+                    let body = vec![
+                        var_stmt("round", num(0.0)),
+                        st(StmtKind::While(bin(BinOp::Lt, var("round"), num(2.0)), vec![expr_stmt(assign("round", bin(BinOp::Add, var("round"), num(1.0)))), lab("round"), try_stmt, lab("after try"), st(StmtKind::Break)])),
+                        lab("after loop"),
+                        st(StmtKind::Return(Some(Expr::Interp(vec![Part::Lit("normal end of d=".into()), Part::Expr(var("d"))])))),
+                    ];
+                    let mut prog = prelude();
+                    match via {
+                        2 => {
+                            prog.push(class_stmt("Holder", None, Some("new"), vec![method(FnKind::Method, "rec", &["d"], body)]));
+                            prog.push(var_stmt("obj", invoke(var("Holder"), "new", vec![])));
+                            prog.push(fn_stmt(func("rec", &["d"], vec![st(StmtKind::Return(Some(invoke(var("obj"), "rec", vec![var("d")]))))])));
+                        }
+                        _ => {
+                            prog.push(fn_stmt(func("rec", &["d"], body)));
+                            prog.push(fn_stmt(func("relay", &["d"], vec![st(StmtKind::Return(Some(call(var("rec"), vec![var("d")]))))])));
+                        }
+                    }
+                    // caught by the caller, and uncaught (the report lists the calls still active)
+                    for caught in [true, false] {
+                        let mut p2 = prog.clone();
+                        if caught {
+                            p2.push(st(StmtKind::Try(vec![print_stmt(call(var("rec"), vec![num(0.0)]))], Some(("e".into(), vec![print_stmt(Expr::Interp(vec![Part::Lit("main caught ".into()), Part::Expr(var("e"))]))])), None)));
+                            p2.push(p("after main"));
+                        } else {
+                            p2.push(print_stmt(call(var("rec"), vec![num(0.0)])));
+                            p2.push(p("after main"));
+                        }
+                        let mut c = Case::new("recursion_from_a_finally_block", p2);
+                        c.opts = crate::diff::CmpOpts { trace: true, kind: true };
+                        out.push(c);
+                    }
+                }
+            }
+        }
+    }
+    out
+}
+
 /// The sublanguage on which no listed finding can be triggered (the whole alphabet at present).
 fn trigger_free(m: &ModelRun) -> bool {
     m.events.is_empty()
@@ -459,6 +543,7 @@ pub fn cases_for_c04(thorough: bool) -> Vec<Case> {
     }
     v.extend(reentered_after_abrupt_finally_exit());
     v.extend(loop_with_pair_cases());
+    v.extend(recursion_from_finally());
     v
 }
 
@@ -485,6 +570,7 @@ pub fn run(ctx: &Ctx) -> Report {
     }
     cases.push(Box::new(reentered_after_abrupt_finally_exit().into_iter()));
     cases.push(Box::new(loop_with_pair_cases().into_iter()));
+    cases.push(Box::new(recursion_from_finally().into_iter()));
     if !thorough {
         cases.push(Box::new(loop_try_try_nests().into_iter().map(move |n| mk("nest_depth3_loop_try_try", vec![n]))));
     }
